@@ -17,6 +17,7 @@ pub mod c17;
 pub mod cgr;
 pub mod coreeval;
 pub mod oligo;
+pub mod replayf;
 pub mod selfcheck;
 
 type StageFn = fn(&Ctx) -> Stats;
@@ -117,7 +118,11 @@ fn replay(ctx: &Ctx) -> Stats {
         "c02" => c02::replay(&case, &mut st),
         "c09" => c09::replay(&case, &mut st, false),
         "c18" => c09::replay(&case, &mut st, true),
-        _ => st.inconclusive(format!("no in-process replay for stage {}: re-run the stage with the same seed", stage)),
+        _ => {
+            if !replayf::replay(ctx, &stage, &case, &mut st) {
+                st.inconclusive(format!("no in-process replay for stage {}: re-run the stage with the same seed", stage));
+            }
+        }
     }
     st
 }
